@@ -167,4 +167,42 @@ theorem old_manifest_conf_link_escapes :
     (deploy true dest ⟨fs0, []⟩ es true).2 = some Err.rejected ∧
     escapes (deploy true dest ⟨fs0, []⟩ es true) = false := by decide
 
+/-! ### a string-prefix test without the separator
+
+`/i/w-s` is a sibling of the target `/i/w` whose NAME extends the target's name.  Component-wise it is not under
+`/i/w`; as text `/i/w-s` starts with `/i/w`. -/
+
+def sib : Path := [['w', '-', 's'], ['i']]
+def fsSib : Fs := (sib, Node.dir) :: fs0
+
+/-- the separator-less test accepts the sibling (and everything in it); the test of the code (with the separator)
+and the model's `under` do not -/
+theorem string_prefix_accepts_sibling :
+    underText dest sib = true ∧ underText dest (['e'] :: sib) = true ∧
+    underTextSep dest sib = false ∧ under dest sib = false ∧ underTextSep dest (['x'] :: dest) = true := by decide
+
+/-- **Deployment guarded by the separator-less test writes outside the instance directory**: key `d` linked to the
+sibling `/i/w-s`, then the nested key `d/e` copied — its real parent `/i/w-s` passes the string test, the copy
+lands in `/i/w-s/e`; no error.  The guard of the code (`under`, = `underTextSep` by
+`Props.C18.underTextSep_eq_under`) rejects the manifest and nothing outside changes. -/
+theorem string_prefix_guard_deploys_into_sibling :
+    let es := [Entry.mk (parsePath ['d']) [Seg.name ['i'], Seg.name ['w', '-', 's']] Method.link,
+               Entry.mk (parsePath ['d', '/', 'e']) [Seg.name ['o']] Method.copy]
+    validateFixed es = true ∧
+    (deployAllWith underText dest ⟨fsSib, []⟩ es).2 = none ∧
+    (deployAllWith underText dest ⟨fsSib, []⟩ es).1.fs.get (['e'] :: sib) = some Node.dir ∧
+    escapes (deployAllWith underText dest ⟨fsSib, []⟩ es) = true ∧
+    (deployAll true dest ⟨fsSib, []⟩ es).2 = some Err.rejected ∧
+    escapes (deployAll true dest ⟨fsSib, []⟩ es) = false := by decide
+
+/-- the same for extraction: the absolute member name `/i/w-s/e` starts, as text, with `/i/w`; a name check without
+the separator accepts it and the file is written into the sibling, the repaired check refuses the archive -/
+theorem string_prefix_check_extracts_into_sibling :
+    let ms := [Member.file (parsePath ['/', 'i', '/', 'w', '-', 's', '/', 'e'])]
+    (stageExtractText dest ⟨fsSib, []⟩ ms).2 = none ∧
+    (stageExtractText dest ⟨fsSib, []⟩ ms).1.log = [['e'] :: sib] ∧
+    escapes (stageExtractText dest ⟨fsSib, []⟩ ms) = true ∧
+    (stageExtractFixed dest ⟨fsSib, []⟩ ms).2 = some Err.rejected ∧
+    escapes (stageExtractFixed dest ⟨fsSib, []⟩ ms) = false := by decide
+
 end St4sd.C18.Witness
